@@ -404,7 +404,11 @@ class ModuleNormalizer:
                 if not self._inline_calls(q, node, cls):
                     break
             self._drop_unused_nested(q, node)
+            self._drop_self_assignments(node)
             self._split_tuple_assigns(q, node)
+            self._loops_to_comprehensions(q, node)
+            self._inline_aliases(q, node)
+            # a second round: inlining temporaries can expose an appending loop, and the other way round
             self._loops_to_comprehensions(q, node)
             self._inline_aliases(q, node)
 
@@ -607,6 +611,16 @@ class ModuleNormalizer:
                             if not stmts:
                                 stmts.append(ast.Pass())
                             self.log.append(f"{q}: removed inlined nested helper {s_.name}")
+
+    def _drop_self_assignments(self, node):
+        for parent in ast.walk(node):
+            for field in ("body", "orelse", "finalbody"):
+                stmts = getattr(parent, field, None)
+                if not isinstance(stmts, list):
+                    continue
+                keep = [s_ for s_ in stmts if not (isinstance(s_, ast.Assign) and len(s_.targets) == 1 and isinstance(s_.targets[0], ast.Name) and isinstance(s_.value, ast.Name) and s_.value.id == s_.targets[0].id)]
+                if len(keep) != len(stmts):
+                    stmts[:] = keep or [ast.Pass()]
 
     def _split_tuple_assigns(self, q: str, node):
         frozen = set(self.fn.get(q, []))
